@@ -9,6 +9,7 @@ import (
 	"github.com/llir/llvm/asm"
 	"github.com/llir/llvm/ir"
 	"github.com/llir/llvm/ir/constant"
+	"github.com/llir/llvm/ir/metadata"
 	"github.com/llir/llvm/ir/types"
 	"github.com/llir/llvm/ir/value"
 )
@@ -355,7 +356,132 @@ func twiceScenario(name string) *ir.Module {
 	return m
 }
 
+// qobsHistory: a never-printed function with an unnamed parameter, an unnamed entry block and unnamed values; with observers, every NON-PRINT query is made on
+// every part; then ONE edit that shifts the numbering; then the module is printed
+func qobsHistory(edit string, observers bool) string {
+	m := ir.NewModule()
+	f := m.NewFunc("f", types.I32, ir.NewParam("", types.I32))
+	b := f.NewBlock("")
+	x := b.NewAdd(f.Params[0], constant.NewInt(types.I32, 1))
+	y := b.NewMul(x, x)
+	b2 := f.NewBlock("")
+	b.NewBr(b2)
+	z := b2.NewSub(y, x)
+	b2.NewRet(z)
+	if observers {
+		for _, p := range f.Params {
+			_, _, _ = p.String(), p.Ident(), p.Type()
+		}
+		for _, blk := range f.Blocks {
+			_, _, _ = blk.String(), blk.Ident(), blk.Type()
+			for _, in := range blk.Insts {
+				_ = in.Operands()
+				if v, ok := in.(value.Named); ok {
+					_, _, _ = v.String(), v.Ident(), v.Type()
+				}
+			}
+			_ = blk.Term.Succs()
+			_ = blk.Term.Operands()
+		}
+		_, _, _ = f.String(), f.Ident(), f.Type()
+	}
+	switch edit {
+	case "insert-front":
+		b.Insts = append([]ir.Instruction{ir.NewAdd(f.Params[0], f.Params[0])}, b.Insts...)
+	case "remove-first":
+		// (the multiplication no longer uses the removed value)
+		y.X, y.Y = f.Params[0], f.Params[0]
+		z.Y = f.Params[0]
+		b.Insts = b.Insts[1:]
+	case "name-first":
+		x.SetName("named")
+	case "append":
+		b2.Insts = append(b2.Insts, ir.NewAdd(z, z))
+	case "block-front":
+		nb := ir.NewBlock("")
+		nb.Parent = f
+		nb.NewBr(b)
+		f.Blocks = append([]*ir.Block{nb}, f.Blocks...)
+	case "param-front":
+		f.Params = append([]*ir.Param{ir.NewParam("", types.I64)}, f.Params...)
+		f.Sig.Params = append([]types.Type{types.I64}, f.Sig.Params...)
+	default:
+		return "unknown-edit"
+	}
+	return safe(func([]string) string { return m.String() }, nil)
+}
+
 func init() {
+	reg("hist.qobs", func(a []string) string {
+		with, without := qobsHistory(a[0], true), qobsHistory(a[0], false)
+		if with == "unknown-edit" {
+			return "FAIL unknown-edit"
+		}
+		if without == "panic" {
+			return "FAIL unobserved-history-panics"
+		}
+		if with != without {
+			return "FAIL observers-changed-the-result " + firstDiff(without, with)
+		}
+		return "ok"
+	})
+	// C17 / C14: metadata definitions REPLACED between two prints (the list keeps its length): every definition has its own ID, the replaced node is numbered,
+	// and the reference from named metadata prints the ID of the node it points to
+	reg("md.replace", func(a []string) string {
+		n, i := int(atoi64(a[0])), int(atoi64(a[1]))
+		m := ir.NewModule()
+		var nodes []*metadata.Tuple
+		for k := 0; k < n; k++ {
+			t := &metadata.Tuple{MetadataID: -1, Fields: []metadata.Field{&metadata.String{Value: fmt.Sprintf("old%d", k)}}}
+			nodes = append(nodes, t)
+			m.MetadataDefs = append(m.MetadataDefs, t)
+		}
+		nd := &metadata.NamedDef{Name: "n"}
+		for _, t := range nodes {
+			nd.Nodes = append(nd.Nodes, t)
+		}
+		m.NamedMetadataDefs["n"] = nd
+		_ = m.String()
+		fresh := &metadata.Tuple{MetadataID: -1, Fields: []metadata.Field{&metadata.String{Value: "fresh"}}}
+		m.MetadataDefs[i] = fresh
+		nd.Nodes[i] = fresh
+		s := safe(func([]string) string { return m.String() }, nil)
+		if s == "panic" {
+			return "FAIL print-panic"
+		}
+		m2, err := asm.ParseString("x.ll", s)
+		if err != nil {
+			return "FAIL reparse-error " + firstDiff("", s)
+		}
+		if len(m2.MetadataDefs) != n {
+			return fmt.Sprintf("FAIL %d definitions read back, want %d", len(m2.MetadataDefs), n)
+		}
+		seen := map[int64]bool{}
+		for _, d := range m2.MetadataDefs {
+			if seen[d.ID()] {
+				return "FAIL duplicate-id"
+			}
+			seen[d.ID()] = true
+		}
+		nm := m2.NamedMetadataDefs["n"]
+		if nm == nil || len(nm.Nodes) != n {
+			return "FAIL named-metadata-shape"
+		}
+		tp, ok := nm.Nodes[i].(*metadata.Tuple)
+		if !ok || len(tp.Fields) != 1 || tp.Fields[0].(*metadata.String).Value != "fresh" {
+			return "FAIL reference-does-not-name-the-new-node"
+		}
+		found := false
+		for _, d := range m2.MetadataDefs {
+			if metadata.Definition(tp) == d {
+				found = true
+			}
+		}
+		if !found {
+			return "FAIL reference-is-an-inline-copy"
+		}
+		return "ok"
+	})
 	reg("hist.twice.list", func(a []string) string { return "fwd-blockaddress-no-globals,fwd-blockaddress-with-global,float-kinds" })
 	reg("hist.twice", func(a []string) string {
 		m := twiceScenario(a[0])
